@@ -45,7 +45,7 @@ Proof.
 Qed.
 
 Lemma parse_str_end f rest acc : parse_str (S f) (34 :: rest) acc = Some (rev acc, rest).
-Proof. reflexivity. Qed.
+Proof. rewrite rev_alt. reflexivity. Qed.
 
 Lemma parse_str_raw f c r acc :
   (c =? 34) = false -> (c <? 32) = false -> (c =? 92) = false ->
@@ -199,7 +199,11 @@ Lemma pe_unfold f s acc : parse_elems (S f) s acc =
                 end
       end
   end.
-Proof. reflexivity. Qed.
+Proof.
+  cbn [parse_elems]. destruct (parse_value f s) as [[v r]|]; [|reflexivity].
+  destruct (eat 44 _); [reflexivity|]. destruct (eat 93 _); [|reflexivity].
+  rewrite <- rev_alt. reflexivity.
+Qed.
 
 Lemma pm_unfold f s acc : parse_members (S f) s acc =
   match eat 34 (skip_ws s) with
@@ -225,7 +229,14 @@ Lemma pm_unfold f s acc : parse_members (S f) s acc =
       end
   | None => None
   end.
-Proof. reflexivity. Qed.
+Proof.
+  cbn [parse_members]. destruct (eat 34 _) as [r|]; [|reflexivity].
+  destruct (parse_str _ r []) as [[k r1]|]; [|reflexivity].
+  destruct (eat 58 _) as [r2|]; [|reflexivity].
+  destruct (parse_value f r2) as [[v r3]|]; [|reflexivity].
+  destruct (eat 44 _); [reflexivity|]. destruct (eat 125 _); [|reflexivity].
+  rewrite <- rev_alt. reflexivity.
+Qed.
 
 (* the first byte of a rendered value *)
 Lemma renders_head v t : Renders v t ->
